@@ -181,6 +181,9 @@ class C05(Prop):
             return
         if isinstance(exc, (simfs.InjectedIOError, simfs.InjectedVanish)) and variant is not None and variant[0] == "io":
             return
+        dn = plan["recipe"].get("download_name") or ""
+        if kind == "file" and isinstance(exc, ValueError) and any(c in dn for c in "\r\n\x00") and ctx.notes.get("nothing_emitted"):
+            return      # a caller-supplied name with CR / LF / NUL may be refused, as long as nothing was emitted
         from baize.exceptions import HTTPException
         if kind == "staticapp" and isinstance(exc, HTTPException) and exc.status_code == 404 and not plan["recipe"]["handle_404"]:
             return      # Files/Pages without handle_404 answer a missing file by raising HTTPException(404) before anything is sent
@@ -272,6 +275,7 @@ class C05(Prop):
             ctx.notes["emissions"] = sends
         if status in (400, 416) and r["kind"] == "file":
             ctx.probe("range_error_response")
+        ctx.notes["nothing_emitted"] = sends == 0
         self._allowed_exc(ctx, "asgi", r["kind"], exc, variant, boom, plan)
         if by["status"] is not None or by["exc"] is not None:
             # an unrelated download on the same loop must not be disturbed by what happens to this response
@@ -350,6 +354,7 @@ class C05(Prop):
             ctx.notes["emissions"] = peer.n_items
         if peer.status in (400, 416) and r["kind"] == "file":
             ctx.probe("range_error_response")
+        ctx.notes["nothing_emitted"] = not peer.monitor.started and peer.n_items == 0
         self._allowed_exc(ctx, "wsgi", r["kind"], peer.exc, variant, boom, plan)
         self._allowed_exc(ctx, "wsgi", r["kind"], peer.close_exc, variant, boom, plan)
         if variant is None and peer.exc is None:
